@@ -17,7 +17,7 @@ CHECKS = {
                 text='For every model of the layout exploration, every file permutation, every definition permutation per file, every set partition of a namespace into up to three files, one comment/blank/trailer insertion at every line boundary, every continuation break and stdin delivery must give the same API signature (namespace docs recomputed in file order); backend output bytes are compared for the structural variants; a layout that flips acceptance is a violation. Standard-input delivery is repeated with trailing comments / blanks on namespace lines, a comment or blank line before them and a missing final newline.',
                 note='Backend byte comparison is restricted to the shallower models in the quick tier (the signature dump covers everything backends read); positions inside multi-line doc strings are not layout.', ref='6/C11'),
     'C04': dict(tech='exhaustive enumeration of (type shape, position, boundary value, mode) over a packed runtime universe; round trip executed on the generated classes and serializers + history layer (ordered pairs of user types, each in a pristine forked process)',
-                text='Every type expression up to the nesting bound over primitives with boundary parameters, user types of every kind and aliases, at every position (struct field, union member, alias, route argument), with every boundary value, in strict and lenient mode through both entry points: decode(encode(v)) equals v (observed through public attributes and by the generated __eq__) and re-encoding gives the same JSON. Positions include a real containing struct / union per shape (unset, null, set); a history layer runs every ordered pair of related (thorough: all) user types in a process forked from the unused parent.',
+                text='Every type expression up to the nesting bound over primitives with boundary parameters, user types of every kind and aliases, at every position (struct field, union member, alias, route argument), with every boundary value, in strict and lenient mode through both entry points: decode(encode(v)) equals v (observed through public attributes and by the generated __eq__) and re-encoding gives the same JSON. Positions include a real containing struct / union per shape (unset, null, set); a history layer runs every ordered pair of related (thorough: all) user types in a process forked from the unused parent, and a re-specification history generates every ordered pair of six revisions of a spec into the same package name in one process.',
                 note='Values are instantiated through public constructors only; the catch-all tag is not a sendable value; one documented exception (nullable struct member without set fields).', ref='6/C04'),
     'C05': dict(tech='exhaustive enumeration of (type shape, position, boundary value) with an independent reference encoder driven by stone.ir',
                 text='For the same space as C04, the output of json_compat_obj_encode and json_encode equals (as parsed JSON) the reference encoding written clause by clause from docs/json_serializer.rst and driven by the stone.ir description, never by the generated reflection tables. Also for timezone-aware UTC timestamps, instances of extending structs at parent-typed positions, and under the history layer of C04.',
@@ -26,7 +26,7 @@ CHECKS = {
                 text='Every document of the explored set is decoded in strict and lenient mode: the outcome is a value or ValidationError (any other exception is a violation), must-accept documents decode to the reference value, must-reject documents are refused, and a value returned for an unspecified document is still valid for the type. String leaves are additionally pushed to near-format variants; the history layer of C04 applies (documents of A, then of B, in a pristine forked process).',
                 note='Reference reading in mc/rtdoc.py from docs/json_serializer.rst; unspecified zones listed in the evidence assumptions.', ref='6/C06'),
     'C08': dict(tech='exhaustive enumeration of probes (bound-1, bound, bound+1, every wrong Python type, related/unrelated classes) for every parameterised primitive and every universe shape through three doors',
-                text='accept <=> valid by the reference predicate derived from stone.ir, refusal is always ValidationError, accepted values read back equal up to the documented normalisations. A wire-text door feeds every Timestamp type strings in and near its declared format; the history layer of C04 applies.',
+                text='accept <=> valid by the reference predicate derived from stone.ir, refusal is always ValidationError, accepted values read back equal up to the documented normalisations. A wire-text door feeds every Timestamp type strings in and near its declared format; every typed member (own and inherited) of every union of the universe is constructed from every probe of its type; the history layer of C04 applies.',
                 note='bool offered to numeric types is unspecified; for user types the class relation is judged.', ref='6/C08'),
     'C07': dict(tech='BFS over spec histories (compatible edits at every site) with old and new generated packages loaded side by side; every ancestor pair compared against a reference reading',
                 text='Every history of compatible edits up to the length bound from a base spec in which every edit site is reachable through every nesting position; for every version B and every ancestor A: every varied boundary value of every common type, both directions, strict and lenient, compared with the reference reading of the message by the receiving version; new fields read as their defaults. The base spec has an open union extending a closed one, a subtype tree behind list / map / alias / nullable-tag positions and a struct without fields.',
@@ -56,7 +56,7 @@ CHECKS = {
                 text='For every explored model and every (shape, position) spec the six configurations complete; every generated file is lexically well formed (comments, strings with interpolation, balanced brackets); every namespace, type, serializer, field, tag and route is declared exactly once under the backend naming scheme; every user-type name used is declared (per file for Objective-C: @class / @interface / #import). The shape product is complete: every leaf type under every wrapper combination up to nesting 2 (quick) / 3 (thorough) at field, tag and the nine route positions, plus foreign union / subtype-tree route arguments.',
                 note='No Swift / Objective-C compiler is installed; five crash classes on type shapes the backends do not handle are recorded as known findings.', ref='6/C17'),
     'C18': dict(tech='exhaustive enumeration of target paths, emit scripts (BFS by script length) and manifest runs, executed on the real Backend/Compiler classes and stone.cli.main over a scratch file system',
-                text='Every target path up to the segment bound (.., absolute, symlinked, nested) is either written inside the output folder or refused; every emit script up to the length bound yields exactly the bytes an independent pretty-printer predicts; --output-manifest lists exactly the files a real run creates for every backend x rich spec. Manifest runs are repeated into an output folder that does not exist yet.',
+                text='Every target path up to the segment bound (.., absolute, symlinked, nested) is either written inside the output folder or refused; every emit script up to the length bound yields exactly the bytes an independent pretty-printer predicts; --output-manifest lists exactly the files a real run creates for every backend x rich spec. Manifest runs are repeated into an output folder that does not exist yet; the command line\'s manifest options are run as a product of backends x output names (dot files, dot folders) x expected-manifest variants; generate_multiline_list is run over its whole argument product.',
                 note='File-system state is observed by walking the scratch root after every run.', ref='6/C18'),
     'C19': dict(tech='exhaustive enumeration of command lines (filter expression trees by depth in four renderings, all single-token edits, all -w/-b namespace subsets, all -a attribute subsets) executed on stone.cli.main with a recording backend and on the filter seam',
                 text='Every expression tree within the depth bounds is evaluated on every route of a spec whose routes realise the full product of attribute values (all truth assignments of the atoms) and compared with a reference evaluator; every single-token edit of the base expressions is accepted or refused as a reference recogniser says; every namespace and attribute subset, :all and unknown names give exactly the selected view, with consistent by-name tables.',
